@@ -105,6 +105,18 @@ class Engine:
         self.stats["feasibility_checks"] += 1
         return s.check(), s
 
+    def try_concrete_int(self, st, v):
+        """the single integer value `v` can take under the path condition, or None"""
+        pc = [c for c in st.pc if not self.has_quant(c)]
+        r, s = self.check(pc, 2000)
+        if r != z3.sat:
+            return None
+        val = s.model().eval(v.z, model_completion=True)
+        if not z3.is_int_value(val):
+            return None
+        r2, _ = self.check(pc + [v.z != val], 2000)
+        return val.as_long() if r2 == z3.unsat else None
+
     def has_quant(self, e, _cache={}):
         k = e.get_id()
         r = _cache.get(k)
